@@ -2,7 +2,7 @@ SPECIFICATION Spec
 CONSTANTS MaxConn = 3
  MaxBin = 1
  Flavours = {"nat", "int", "natreal"}
- MainIdx = {2, 3, 5, 6, 7}
+ MainIdx = {2, 3, 5, 6}
  SideIdx = {4}
  RMainIdx = {1, 5}
  RSideIdx = {3}
